@@ -459,6 +459,16 @@ def run_gas(fields):
         return "ERR:" + type(e).__name__
 
 
+def run_genc(fields):
+    """["genc"; value]: the real _extract_enclosing_text"""
+    from netconan import sensitive_item_removal as sir
+
+    try:
+        return "\x01".join(sir._extract_enclosing_text(fields[1]))
+    except Exception as e:  # noqa
+        return "ERR:" + type(e).__name__
+
+
 def run_iphist(fields):
     """["iphist"; fam; B; salt; pfx; nets; step...]: ONE anonymizer object answers a sequence of text-level requests through
     anonymize_ip_addr; step = "a<line>" (anonymize) or "u<line>" (undo).  Output: the answers joined by \x03."""
@@ -502,7 +512,7 @@ def run_seq(fields):
     return "\x07".join(outs)
 
 
-DISPATCH = {"gas": run_gas, "iphist": run_iphist, "seq": run_seq, "gjenc": run_jun, "gjdec": run_jun, "gbase": run_ip, "gip4": run_ip, "main": run_main, "files": run_files, "asr": run_asr, "pipe": run_pipe, "base": run_ip, "ip4": run_ip, "ip6": run_ip, "jenc": run_jun, "jdec": run_jun}
+DISPATCH = {"genc": run_genc, "gas": run_gas, "iphist": run_iphist, "seq": run_seq, "gjenc": run_jun, "gjdec": run_jun, "gbase": run_ip, "gip4": run_ip, "main": run_main, "files": run_files, "asr": run_asr, "pipe": run_pipe, "base": run_ip, "ip4": run_ip, "ip6": run_ip, "jenc": run_jun, "jdec": run_jun}
 
 
 def _start_coverage():
